@@ -2,6 +2,7 @@ import M3d.Basic
 import M3d.Model.Transform
 import M3d.Model.SmartSqueeze
 import M3d.Model.Transform2
+import M3d.Model.TransformNest
 /-!
 Line-protocol handler for C05.  Core-only; runs the models of `M3d/Model/Transform.lean` at `Rat`.
 
@@ -13,8 +14,13 @@ Two sorts of kinds (see notes/C05.md):
   object is given by its answers, additionally evaluate the model on a table stub and refuse
   (`MODEL-NE-SPEC`) if the model does not produce the demanded value.
 
-2-D kinds run the same model on the plane `z = 0` (vectors `(x,y,0)`, `Matrix2` embedded with a unit on the
-diagonal, per-axis scale `(x,y,1)`); only the `mat2` kinds use the separate `M2` model.
+2-D kinds run the native 2-D model (`M3d/Model/Transform2.lean`, namespace `Two` below).
+
+Nested wrappers: every wrapper kind (`solid solidr sdf mball inner outer nilcb sphin cbounds coll first sphc`) also
+accepts `N k t₁ … tₖ` in place of the transform (harness kinds `nest.<kind>`): the model folds the wrapper over the
+list, innermost first (`nestSolid`, `nestSDF`, `nestMetaball`, `nestCollider` of `M3d/Model/TransformNest.lean`); the
+property's right-hand side is computed for the slice `JoinedTransform{t₁,…,tₖ}` (`Xf.ofList`), which
+`M3d.C05.nested_solid`, `nested_sdf_metaball`, `nested_collider` (+ `_2d`) prove to be the same object.
 -/
 namespace M3d.Drv.C05
 open M3d M3d.Tf
@@ -82,6 +88,27 @@ partial def pJoin (dim : Nat) : Nat → P (Xf Q)
       let (r, ws) ← pJoin dim n ws
       some (.jcons t r, ws)
 end
+
+
+/-- `N k t₁ … tₖ`: the wrapper nested `k` deep, `t₁` innermost — the model folds the wrapper over the list
+(`nest…` of `M3d/Model/TransformNest.lean`), the property's right-hand side uses the slice `JoinedTransform{t₁,…,tₖ}`
+(`M3d.C05.nested_solid`, `nested_sdf_metaball`, `nested_collider` and their 2-D twins).  Any other transform token is
+a single wrap. -/
+def pList (dim : Nat) : Nat → P (List (Xf Q))
+  | 0, ws => some ([], ws)
+  | n + 1, ws => do
+      let (t, ws) ← pXf dim ws
+      let (r, ws) ← pList dim n ws
+      some (t :: r, ws)
+
+def pXfN (dim : Nat) : P (List (Xf Q) × Xf Q)
+  | "N" :: ws => do
+      let (n, ws) ← pNat ws
+      let (l, ws) ← pList dim n ws
+      some ((l, Xf.ofList l), ws)
+  | ws => do
+      let (t, ws) ← pXf dim ws
+      some (([t], t), ws)
 
 /-! ### rendering -/
 
@@ -190,32 +217,32 @@ def handleXf (dim : Nat) (kind : String) (ws : List String) : Option String := d
           some (if model = showRat r then spec else spec ++ " MODEL-NE-SPEC:" ++ model)
       | _, _ => some "irrational"
   | "solid" =>
-      let (t, ws) ← pXf dim ws; let (lo, ws) ← pV dim 0 ws; let (hi, ws) ← pV dim 0 ws
+      let ((l, t), ws) ← pXfN dim ws; let (lo, ws) ← pV dim 0 ws; let (hi, ws) ← pV dim 0 ws
       let (q, ws) ← pV dim 0 ws; let c ← done (← pNat ws)
       let stub : Solid Q := { lo := lo, hi := hi, contains := fun x => if x = q then c == 1 else !(c == 1) }
-      let ts := transformSolid t stub
+      let ts := nestSolid l stub
       let spec := boolStr (c == 1)
       let model := boolStr (ts.contains (t.apply q))
       some ((if model = spec then spec else spec ++ " MODEL-NE-SPEC:" ++ model) ++ " " ++ sB dim (ts.lo, ts.hi))
   | "solidr" =>
-      let (t, ws) ← pXf dim ws; let (lo, ws) ← pV dim 0 ws; let (hi, ws) ← pV dim 0 ws
+      let ((l, _), ws) ← pXfN dim ws; let (lo, ws) ← pV dim 0 ws; let (hi, ws) ← pV dim 0 ws
       let p ← done (← pV dim 0 ws)
       let rect : Solid Q := { lo := lo, hi := hi, contains := fun x => inBounds x lo hi }
-      some (boolStr ((transformSolid t rect).contains p))
+      some (boolStr ((nestSolid l rect).contains p))
   | "sdf" =>
-      let (t, ws) ← pXf dim ws; let (lo, ws) ← pV dim 0 ws; let (hi, ws) ← pV dim 0 ws
+      let ((l, t), ws) ← pXfN dim ws; let (lo, ws) ← pV dim 0 ws; let (hi, ws) ← pV dim 0 ws
       let (q, ws) ← pV dim 0 ws; let v ← done (← pRat ws)
       let stub : SDF Q := { lo := lo, hi := hi, sdf := fun x => if x = q then v else v + 1000 }
-      let ts := transformSDF t stub
+      let ts := nestSDF l stub
       let spec := showRat (v * specFactor t)
       let model := showRat (ts.sdf (t.apply q))
       some ((if model = spec then spec else spec ++ " MODEL-NE-SPEC:" ++ model) ++ " " ++ sB dim (ts.lo, ts.hi))
   | "mball" =>
-      let (t, ws) ← pXf dim ws; let (lo, ws) ← pV dim 0 ws; let (hi, ws) ← pV dim 0 ws
+      let ((l, t), ws) ← pXfN dim ws; let (lo, ws) ← pV dim 0 ws; let (hi, ws) ← pV dim 0 ws
       let (q, ws) ← pV dim 0 ws; let (mv, ws) ← pRat ws; let (d, ws) ← pRat ws; let bd ← done (← pRat ws)
       let stub : Metaball Q := { lo := lo, hi := hi, field := fun x => if x = q then mv else mv + 1000,
                                  distBound := fun x => if x = d then bd else bd + 1000 }
-      let tm := transformMetaball t stub
+      let tm := nestMetaball l stub
       let spec := showRat mv ++ " " ++ showRat bd
       let model := showRat (tm.field (t.apply q)) ++ " " ++ showRat (tm.distBound (d * specFactor t))
       some ((if model = spec then spec else spec ++ " MODEL-NE-SPEC:" ++ model) ++ " " ++ sB dim (tm.lo, tm.hi))
@@ -230,28 +257,29 @@ def handleXf (dim : Nat) (kind : String) (ws : List String) : Option String := d
       let vm := vecScaleMetaball stub sc
       some (showRat (vm.field (q.mul sc)) ++ " " ++ showRat (vm.distBound d) ++ " " ++ sB dim (vm.lo, vm.hi))
   | "inner" =>
-      let (t, ws) ← pXf dim ws; let (o, ws) ← pV dim 0 ws; let d ← done (← pV dim 0 ws)
-      let r := innerRay t.inverse ⟨o, d⟩
+      let ((l, _), ws) ← pXfN dim ws; let (o, ws) ← pV dim 0 ws; let d ← done (← pV dim 0 ws)
+      let r := l.foldr (fun t r => innerRay t.inverse r) ⟨o, d⟩
       some (sV dim r.origin ++ " " ++ sV dim r.dir)
   | "outer" =>
-      let (t, ws) ← pXf dim ws; let (hs, ws) ← pHits dim 1 ws; let _ ← done ((), ws)
+      let ((l, _), ws) ← pXfN dim ws; let (hs, ws) ← pHits dim 1 ws; let _ ← done ((), ws)
       let r : Ray Q := ⟨V3.zero, ⟨1, 0, 0⟩⟩
-      match tcRayCollisions sqrtQ t (dummyCollider hs) r true with
+      match colliderRayCollisions (nestCollider sqrtQ l (dummyCollider hs)) r true with
       | .ok _ calls => some ("|".intercalate (calls.map (sHit dim)))
       | .panic => some "panic"
   | "nilcb" =>
-      let (t, ws) ← pXf dim ws; let k ← done (← pNat ws)
+      let ((l, _), ws) ← pXfN dim ws; let k ← done (← pNat ws)
       let hs := List.replicate k (⟨1, ⟨1, 0, 0⟩, 0⟩ : Hit Q)
-      some (rcStr dim (tcRayCollisions sqrtQ t (dummyCollider hs) ⟨V3.zero, ⟨1, 0, 0⟩⟩ false))
+      some (rcStr dim (colliderRayCollisions (nestCollider sqrtQ l (dummyCollider hs)) ⟨V3.zero, ⟨1, 0, 0⟩⟩ false))
   | "sphin" =>
-      let (t, ws) ← pXf dim ws; let (c, ws) ← pV dim 0 ws; let (r, ws) ← pRat ws; let reply ← done (← pNat ws)
-      some (sV dim (t.inverse.apply c) ++ " " ++ showRat (t.inverse.applyDistance r) ++ " " ++ toString reply)
+      let ((l, _), ws) ← pXfN dim ws; let (c, ws) ← pV dim 0 ws; let (r, ws) ← pRat ws; let reply ← done (← pNat ws)
+      let q := l.foldr (fun t (q : _ × Q) => (t.inverse.apply q.1, t.inverse.applyDistance q.2)) (c, r)
+      some (sV dim q.1 ++ " " ++ showRat q.2 ++ " " ++ toString reply)
   | "cbounds" =>
-      let (t, ws) ← pXf dim ws; let (lo, ws) ← pV dim 0 ws; let hi ← done (← pV dim 0 ws)
-      some (sB dim (t.applyBounds lo hi))
+      let ((l, _), ws) ← pXfN dim ws; let (lo, ws) ← pV dim 0 ws; let hi ← done (← pV dim 0 ws)
+      some (sB dim (l.foldl (fun b t => t.applyBounds b.1 b.2) (lo, hi)))
   | "coll" =>
       let mode ← ws.head?
-      let (t, ws) ← pXf dim (ws.drop 1)
+      let ((l, t), ws) ← pXfN dim (ws.drop 1)
       let (o, ws) ← pV dim 0 ws; let (d, ws) ← pV dim 0 ws
       let (o', ws) ← pV dim 0 ws; let (d', ws) ← pV dim 0 ws
       let (cnt, ws) ← pNat ws; let (n, ws) ← pNat ws
@@ -259,11 +287,11 @@ def handleXf (dim : Nat) (kind : String) (ws : List String) : Option String := d
       let stub := tableCollider ⟨o', d'⟩ cnt hs (⟨0, V3.zero, 0⟩, false) V3.zero 0 false
       let withCb := mode == "cb"
       let spec : RCResult Q := .ok cnt (if withCb then hs.map (specHit t) else [])
-      let model := tcRayCollisions sqrtQ t stub ⟨o, d⟩ withCb
+      let model := colliderRayCollisions (nestCollider sqrtQ l stub) ⟨o, d⟩ withCb
       let s := rcStr dim spec
       some (if rcStr dim model = s then s else s ++ " MODEL-NE-SPEC:" ++ rcStr dim model)
   | "first" =>
-      let (t, ws) ← pXf dim ws
+      let ((l, t), ws) ← pXfN dim ws
       let (o, ws) ← pV dim 0 ws; let (d, ws) ← pV dim 0 ws
       let (o', ws) ← pV dim 0 ws; let (d', ws) ← pV dim 0 ws
       let (ok, ws) ← pNat ws
@@ -272,15 +300,15 @@ def handleXf (dim : Nat) (kind : String) (ws : List String) : Option String := d
       let stub := tableCollider ⟨o', d'⟩ 0 [] fst V3.zero 0 false
       let render : Hit Q × Bool → String := fun r => if r.2 then "hit " ++ sHit dim r.1 else "miss"
       let s := render (specHit t fst.1, fst.2)
-      let model := render (tcFirst sqrtQ t stub ⟨o, d⟩)
+      let model := render ((nestCollider sqrtQ l stub).first ⟨o, d⟩)
       some (if model = s then s else s ++ " MODEL-NE-SPEC:" ++ model)
   | "sphc" =>
-      let (t, ws) ← pXf dim ws
+      let ((l, _), ws) ← pXfN dim ws
       let (c, ws) ← pV dim 0 ws; let (r, ws) ← pRat ws
       let (q, ws) ← pV dim 0 ws; let (rad, ws) ← pRat ws; let want ← done (← pNat ws)
       let stub := tableCollider ⟨V3.zero, V3.zero⟩ 0 [] (⟨0, V3.zero, 0⟩, false) q rad (want == 1)
       let s := boolStr (want == 1)
-      let model := boolStr (tcSphere t stub c r)
+      let model := boolStr ((nestCollider sqrtQ l stub).sphere c r)
       some (if model = s then s else s ++ " MODEL-NE-SPEC:" ++ model)
   | _ => none
 
@@ -315,6 +343,27 @@ partial def pJoin (dim : Nat) : Nat → P (Xf2 Q)
 end
 
 
+
+
+/-- `N k t₁ … tₖ`: the wrapper nested `k` deep, `t₁` innermost — the model folds the wrapper over the list
+(`nest…` of `M3d/Model/TransformNest.lean`), the property's right-hand side uses the slice `JoinedTransform{t₁,…,tₖ}`
+(`M3d.C05.nested_solid`, `nested_sdf_metaball`, `nested_collider` and their 2-D twins).  Any other transform token is
+a single wrap. -/
+def pList (dim : Nat) : Nat → P (List (Xf2 Q))
+  | 0, ws => some ([], ws)
+  | n + 1, ws => do
+      let (t, ws) ← pXf dim ws
+      let (r, ws) ← pList dim n ws
+      some (t :: r, ws)
+
+def pXfN (dim : Nat) : P (List (Xf2 Q) × Xf2 Q)
+  | "N" :: ws => do
+      let (n, ws) ← pNat ws
+      let (l, ws) ← pList dim n ws
+      some ((l, Xf2.ofList l), ws)
+  | ws => do
+      let (t, ws) ← pXf dim ws
+      some (([t], t), ws)
 
 def sV (_dim : Nat) (v : V2 Q) : String := s!"{showRat v.x} {showRat v.y}"
 
@@ -417,32 +466,32 @@ def handleXf (dim : Nat) (kind : String) (ws : List String) : Option String := d
           some (if model = showRat r then spec else spec ++ " MODEL-NE-SPEC:" ++ model)
       | _, _ => some "irrational"
   | "solid" =>
-      let (t, ws) ← pXf dim ws; let (lo, ws) ← pV dim 0 ws; let (hi, ws) ← pV dim 0 ws
+      let ((l, t), ws) ← pXfN dim ws; let (lo, ws) ← pV dim 0 ws; let (hi, ws) ← pV dim 0 ws
       let (q, ws) ← pV dim 0 ws; let c ← done (← pNat ws)
       let stub : Solid2 Q := { lo := lo, hi := hi, contains := fun x => if x = q then c == 1 else !(c == 1) }
-      let ts := transformSolid2 t stub
+      let ts := nestSolid2 l stub
       let spec := boolStr (c == 1)
       let model := boolStr (ts.contains (t.apply q))
       some ((if model = spec then spec else spec ++ " MODEL-NE-SPEC:" ++ model) ++ " " ++ sB dim (ts.lo, ts.hi))
   | "solidr" =>
-      let (t, ws) ← pXf dim ws; let (lo, ws) ← pV dim 0 ws; let (hi, ws) ← pV dim 0 ws
+      let ((l, _), ws) ← pXfN dim ws; let (lo, ws) ← pV dim 0 ws; let (hi, ws) ← pV dim 0 ws
       let p ← done (← pV dim 0 ws)
       let rect : Solid2 Q := { lo := lo, hi := hi, contains := fun x => inBounds2 x lo hi }
-      some (boolStr ((transformSolid2 t rect).contains p))
+      some (boolStr ((nestSolid2 l rect).contains p))
   | "sdf" =>
-      let (t, ws) ← pXf dim ws; let (lo, ws) ← pV dim 0 ws; let (hi, ws) ← pV dim 0 ws
+      let ((l, t), ws) ← pXfN dim ws; let (lo, ws) ← pV dim 0 ws; let (hi, ws) ← pV dim 0 ws
       let (q, ws) ← pV dim 0 ws; let v ← done (← pRat ws)
       let stub : SDF2 Q := { lo := lo, hi := hi, sdf := fun x => if x = q then v else v + 1000 }
-      let ts := transformSDF2 t stub
+      let ts := nestSDF2 l stub
       let spec := showRat (v * specFactor t)
       let model := showRat (ts.sdf (t.apply q))
       some ((if model = spec then spec else spec ++ " MODEL-NE-SPEC:" ++ model) ++ " " ++ sB dim (ts.lo, ts.hi))
   | "mball" =>
-      let (t, ws) ← pXf dim ws; let (lo, ws) ← pV dim 0 ws; let (hi, ws) ← pV dim 0 ws
+      let ((l, t), ws) ← pXfN dim ws; let (lo, ws) ← pV dim 0 ws; let (hi, ws) ← pV dim 0 ws
       let (q, ws) ← pV dim 0 ws; let (mv, ws) ← pRat ws; let (d, ws) ← pRat ws; let bd ← done (← pRat ws)
       let stub : Metaball2 Q := { lo := lo, hi := hi, field := fun x => if x = q then mv else mv + 1000,
                                   distBound := fun x => if x = d then bd else bd + 1000 }
-      let tm := transformMetaball2 t stub
+      let tm := nestMetaball2 l stub
       let spec := showRat mv ++ " " ++ showRat bd
       let model := showRat (tm.field (t.apply q)) ++ " " ++ showRat (tm.distBound (d * specFactor t))
       some ((if model = spec then spec else spec ++ " MODEL-NE-SPEC:" ++ model) ++ " " ++ sB dim (tm.lo, tm.hi))
@@ -455,28 +504,29 @@ def handleXf (dim : Nat) (kind : String) (ws : List String) : Option String := d
       let vm := vecScaleMetaball2 stub sc
       some (showRat (vm.field (q.mul sc)) ++ " " ++ showRat (vm.distBound d) ++ " " ++ sB dim (vm.lo, vm.hi))
   | "inner" =>
-      let (t, ws) ← pXf dim ws; let (o, ws) ← pV dim 0 ws; let d ← done (← pV dim 0 ws)
-      let r := innerRay2 t.inverse ⟨o, d⟩
+      let ((l, _), ws) ← pXfN dim ws; let (o, ws) ← pV dim 0 ws; let d ← done (← pV dim 0 ws)
+      let r := l.foldr (fun t r => innerRay2 t.inverse r) ⟨o, d⟩
       some (sV dim r.origin ++ " " ++ sV dim r.dir)
   | "outer" =>
-      let (t, ws) ← pXf dim ws; let (hs, ws) ← pHits dim 1 ws; let _ ← done ((), ws)
+      let ((l, _), ws) ← pXfN dim ws; let (hs, ws) ← pHits dim 1 ws; let _ ← done ((), ws)
       let r : Ray2 Q := ⟨V2.zero, ⟨1, 0⟩⟩
-      match tcRayCollisions2 sqrtQ t (dummyCollider hs) r true with
+      match colliderRayCollisions2 (nestCollider2 sqrtQ l (dummyCollider hs)) r true with
       | .ok _ calls => some ("|".intercalate (calls.map (sHit dim)))
       | .panic => some "panic"
   | "nilcb" =>
-      let (t, ws) ← pXf dim ws; let k ← done (← pNat ws)
+      let ((l, _), ws) ← pXfN dim ws; let k ← done (← pNat ws)
       let hs := List.replicate k (⟨1, ⟨1, 0⟩, 0⟩ : Hit2 Q)
-      some (rcStr dim (tcRayCollisions2 sqrtQ t (dummyCollider hs) ⟨V2.zero, ⟨1, 0⟩⟩ false))
+      some (rcStr dim (colliderRayCollisions2 (nestCollider2 sqrtQ l (dummyCollider hs)) ⟨V2.zero, ⟨1, 0⟩⟩ false))
   | "sphin" =>
-      let (t, ws) ← pXf dim ws; let (c, ws) ← pV dim 0 ws; let (r, ws) ← pRat ws; let reply ← done (← pNat ws)
-      some (sV dim (t.inverse.apply c) ++ " " ++ showRat (t.inverse.applyDistance r) ++ " " ++ toString reply)
+      let ((l, _), ws) ← pXfN dim ws; let (c, ws) ← pV dim 0 ws; let (r, ws) ← pRat ws; let reply ← done (← pNat ws)
+      let q := l.foldr (fun t (q : _ × Q) => (t.inverse.apply q.1, t.inverse.applyDistance q.2)) (c, r)
+      some (sV dim q.1 ++ " " ++ showRat q.2 ++ " " ++ toString reply)
   | "cbounds" =>
-      let (t, ws) ← pXf dim ws; let (lo, ws) ← pV dim 0 ws; let hi ← done (← pV dim 0 ws)
-      some (sB dim (t.applyBounds lo hi))
+      let ((l, _), ws) ← pXfN dim ws; let (lo, ws) ← pV dim 0 ws; let hi ← done (← pV dim 0 ws)
+      some (sB dim (l.foldl (fun b t => t.applyBounds b.1 b.2) (lo, hi)))
   | "coll" =>
       let mode ← ws.head?
-      let (t, ws) ← pXf dim (ws.drop 1)
+      let ((l, t), ws) ← pXfN dim (ws.drop 1)
       let (o, ws) ← pV dim 0 ws; let (d, ws) ← pV dim 0 ws
       let (o', ws) ← pV dim 0 ws; let (d', ws) ← pV dim 0 ws
       let (cnt, ws) ← pNat ws; let (n, ws) ← pNat ws
@@ -484,11 +534,11 @@ def handleXf (dim : Nat) (kind : String) (ws : List String) : Option String := d
       let stub := tableCollider ⟨o', d'⟩ cnt hs (⟨0, V2.zero, 0⟩, false) V2.zero 0 false
       let withCb := mode == "cb"
       let spec : RCResult2 Q := .ok cnt (if withCb then hs.map (specHit t) else [])
-      let model := tcRayCollisions2 sqrtQ t stub ⟨o, d⟩ withCb
+      let model := colliderRayCollisions2 (nestCollider2 sqrtQ l stub) ⟨o, d⟩ withCb
       let s := rcStr dim spec
       some (if rcStr dim model = s then s else s ++ " MODEL-NE-SPEC:" ++ rcStr dim model)
   | "first" =>
-      let (t, ws) ← pXf dim ws
+      let ((l, t), ws) ← pXfN dim ws
       let (o, ws) ← pV dim 0 ws; let (d, ws) ← pV dim 0 ws
       let (o', ws) ← pV dim 0 ws; let (d', ws) ← pV dim 0 ws
       let (ok, ws) ← pNat ws
@@ -497,15 +547,15 @@ def handleXf (dim : Nat) (kind : String) (ws : List String) : Option String := d
       let stub := tableCollider ⟨o', d'⟩ 0 [] fst V2.zero 0 false
       let render : Hit2 Q × Bool → String := fun r => if r.2 then "hit " ++ sHit dim r.1 else "miss"
       let s := render (specHit t fst.1, fst.2)
-      let model := render (tcFirst2 sqrtQ t stub ⟨o, d⟩)
+      let model := render ((nestCollider2 sqrtQ l stub).first ⟨o, d⟩)
       some (if model = s then s else s ++ " MODEL-NE-SPEC:" ++ model)
   | "sphc" =>
-      let (t, ws) ← pXf dim ws
+      let ((l, _), ws) ← pXfN dim ws
       let (c, ws) ← pV dim 0 ws; let (r, ws) ← pRat ws
       let (q, ws) ← pV dim 0 ws; let (rad, ws) ← pRat ws; let want ← done (← pNat ws)
       let stub := tableCollider ⟨V2.zero, V2.zero⟩ 0 [] (⟨0, V2.zero, 0⟩, false) q rad (want == 1)
       let s := boolStr (want == 1)
-      let model := boolStr (tcCircle2 t stub c r)
+      let model := boolStr ((nestCollider2 sqrtQ l stub).circle c r)
       some (if model = s then s else s ++ " MODEL-NE-SPEC:" ++ model)
   | _ => none
 
@@ -571,6 +621,10 @@ def handlePinch (ws : List String) : Option String := do
   | "encl" =>
       let (_, ws) ← pV 3 0 ws; let (_, ws) ← pV 3 0 ws; let _ ← done (← pV 3 0 ws)
       some "1"
+  | "solid" =>
+      -- `TransformSolid(pinch, Rect{lo,hi}).Contains(pinch.Apply(q))` for `q` in the box: `M3d.C05.pinch_solid_conj`
+      let (lo, ws) ← pV 3 0 ws; let (hi, ws) ← pV 3 0 ws; let q ← done (← pV 3 0 ws)
+      some (boolStr (inBounds q lo hi))
   | _ => none
 
 
@@ -824,6 +878,8 @@ def handleAll (ws : List String) : Option String :=
       if k.startsWith "bits." then
         let b := (k.drop 5).toString
         return ← (if b.endsWith "2" && b != "rotm2" then handleBits2 b rest else handleBits b rest)
+      -- `nest.<kind>`: the same handler; the transform token is `N k t₁ … tₖ`
+      let k := if k.startsWith "nest." then (k.drop 5).toString else k
       let (kind, dim) ← stripDim k
       if dim = 2 then Two.handleXf 2 kind rest else handleXf dim kind rest
   | [] => none
